@@ -360,7 +360,11 @@ func c04MBT(d *vCtx) error {
 				if res == "ok" && want != "ok" {
 					// the real reader cut its results differently (allowed by io.Reader): drain it
 					drift++
-					for k := 0; k < 100000 && res == "ok"; k++ {
+					for k := 0; res == "ok"; k++ {
+						if k > 2*len(wire)+8 {
+							bad(si, "read", s, map[string]any{"reads_after_model_end": k}, "the reader keeps delivering data: more bytes than the stream holds")
+							break steps
+						}
 						if msg := c04Guard(func() { n, rerr = er.Read(buf) }); msg != "" {
 							bad(si, "read", s, msg, "escapeReader.Read panicked")
 							break steps
@@ -585,7 +589,12 @@ func c04Record(tr *vTrace, pl *c04Plan, run int) {
 	case "reader":
 		src := &c04Source{chunks: pl.chunks(wire), tr: tr}
 		er := newEscapeReader(table, src)
-		for i := 0; i < 100000; i++ {
+		for i := 0; ; i++ {
+			if i > 2*len(wire)+8 {
+				// every Read delivers at least one byte: more reads than bytes means a runaway decoder
+				tr.Emit(map[string]any{"e": "runaway", "reads": i, "wire_len": len(wire)}, nil)
+				return
+			}
 			c := pl.caps()
 			if c < 1 {
 				c = 1
@@ -618,7 +627,11 @@ func c04Record(tr *vTrace, pl *c04Plan, run int) {
 		var cur []byte
 		ci := 0
 		needMore := true
-		for i := 0; i < 100000; i++ {
+		for i := 0; ; i++ {
+			if i > 3*len(wire)+len(chunks)+8 {
+				tr.Emit(map[string]any{"e": "runaway", "reads": i, "wire_len": len(wire)}, nil)
+				return
+			}
 			if needMore || len(cur) == 0 {
 				if ci >= len(chunks) {
 					return
